@@ -67,6 +67,8 @@ type vfhCfg struct {
 	FT    []string     `json:"ft"`    // key types to use for the abstract foreign identity F
 	Mut   string       `json:"mut"`   // corruption of a c=TRUE step: "all" | "sample:<k>" | "one:<idx>"
 	Steps bool         `json:"steps"` // also record one event per step (first variant only)
+	// record the steps of every concretisation the model describes
+	StepsAll bool `json:"stepsall"`
 }
 
 type vfhScript struct {
@@ -561,9 +563,10 @@ func (r *vfhRun) proof(st vfhStep, signer string, tgt *vfhSession) []byte {
 			// [S]B = R + [k]A with A the identity: R = [s]B verifies for every message
 			return vfhIdentitySig(r.rnd)
 		}
-		k := r.keys.priv[signer]
-		if k == nil {
-			k = r.keys.priv["E"]
+		// the intruder signs with a key it owns: F's when it claims F, else E's
+		k := r.keys.priv["E"]
+		if signer == "F" {
+			k = r.keys.priv["F"]
 		}
 		sig, err := k.Sign(r.shared(tgt)[:])
 		vfhMust(err, "sign")
@@ -612,7 +615,7 @@ type vfhMut struct {
 }
 
 // mutations of one frame (uvarint prefix + body); others = recorded frames of another kind
-func vfhMutations(frame []byte, others [][]byte) []vfhMut {
+func vfhMutations(frame []byte, others [][]byte, last bool) []vfhMut {
 	var out []vfhMut
 	n := len(frame)
 	for i := 0; i < 8*n; i++ {
@@ -654,7 +657,10 @@ func vfhMutations(frame []byte, others [][]byte) []vfhMut {
 			b := append(append([]byte(nil), body...), 0x78, 0x01)
 			return append(binary.AppendUvarint(nil, uint64(len(b))), b...)
 		}},
-		{desc: "twice", f: func() []byte { return append(append([]byte(nil), frame...), frame...) }},
+	}
+	if last {
+		// bytes after the last frame a role reads are never looked at
+		sp = append(sp, vfhMut{desc: "twice", f: func() []byte { return append(append([]byte(nil), frame...), frame...) }})
 	}
 	out = append(out, sp...)
 	for k, o := range others {
@@ -782,31 +788,44 @@ func (r *vfhRun) otherKind(kind string) [][]byte {
 	return out
 }
 
-// recorded returns frame k of the source session of a replay step
+// recorded returns frame k of the source session of a replay step.  When the real code did not
+// get as far as the model expects (the run is then outside the full specification: a "low"
+// encoding that is not degenerate for this X25519 implementation, or an implementation that
+// rejects what the model's Impl value accepts) there is nothing to replay: nil.
 func (r *vfhRun) recorded(st vfhStep, k int) []byte {
 	fr := r.sess[st.Src-1].frames
 	if k >= len(fr) {
-		if low, _, _ := vfhUses(r.sc); low && !vfhLowPoints[r.lowIdx].zero {
-			// the "low" encoding of this run is not degenerate for this X25519 implementation: the
-			// abstract attack does not go through and there is nothing to replay; the stream just ends
-			r.obs = append(r.obs, "nothing-to-replay")
-			return nil
-		}
-		b, _ := json.Marshal(r.sc)
-		vfInfra("script replays frame %d of session %d which emitted only %d (low=%d ft=%q): %s", k+1, st.Src, len(fr), r.lowIdx, r.ft, b)
+		r.obs = append(r.obs, "nothing-to-replay")
+		return nil
 	}
 	return fr[k]
 }
 
 func (r *vfhRun) step(st vfhStep) map[string]any {
 	s := r.sess[st.S-1]
-	ev := map[string]any{"ev": st.Act, "s": st.S, "x": st.X, "src": st.Src, "acct": st.Acct, "pfk": st.Pfk, "pfj": st.Pfj, "c": st.C}
+	// skip: the step could not be executed as the model describes it (see recorded)
+	ev := map[string]any{"ev": st.Act, "s": st.S, "x": st.X, "src": st.Src, "acct": st.Acct, "pfk": st.Pfk, "pfj": st.Pfj, "c": st.C, "skip": false}
+	nobs := len(r.obs)
+	defer func() {
+		if len(r.obs) > nobs {
+			ev["skip"] = true
+		}
+	}()
 	if s.conn == nil {
 		vfInfra("step on absent session %d", st.S)
 	}
 	if st.Act == "start" {
 		n := r.collect(s)
 		ev["out"], ev["key"] = r.outcome(s, n)
+		return ev
+	}
+	s.conn.mu.Lock()
+	gone := s.conn.done
+	s.conn.mu.Unlock()
+	if gone {
+		// the real session already returned (earlier than the model expects): nothing to deliver to
+		r.obs = append(r.obs, "session-gone")
+		ev["out"], ev["key"] = "gone", "-"
 		return ev
 	}
 	var frame []byte
@@ -852,9 +871,9 @@ func (r *vfhRun) step(st vfhStep) map[string]any {
 			frame = r.recorded(st, 2)
 			prov = fmt.Sprintf("%d.3", st.Src)
 		case st.X == "t":
-			frame = vfhFrame(&RequesterAcknowledgePayload{Success: true})
+			frame, prov = vfhFrame(&RequesterAcknowledgePayload{Success: true}), "I:ack+"
 		case st.X == "f":
-			frame = vfhFrame(&RequesterAcknowledgePayload{Success: false})
+			frame, prov = vfhFrame(&RequesterAcknowledgePayload{Success: false}), "I:ack-"
 		default:
 			frame, eof, prov = nil, true, "eof"
 		}
@@ -865,7 +884,7 @@ func (r *vfhRun) step(st vfhStep) map[string]any {
 		eof, prov = true, "missing"
 	}
 	if st.C && frame != nil {
-		muts := vfhMutations(frame, r.otherKind(st.Act))
+		muts := vfhMutations(frame, r.otherKind(st.Act), st.Act == "accept" || st.Act == "ack")
 		r.nmut = len(muts)
 		if r.mutIdx < 0 || r.mutIdx >= len(muts) {
 			vfInfra("mutation index %d out of range %d", r.mutIdx, len(muts))
@@ -1029,16 +1048,19 @@ func TestVerifHandshakeReplay(t *testing.T) {
 	var wg sync.WaitGroup
 	var mu sync.Mutex
 	runs := 0
+	emit := func(evs []map[string]any) {
+		tr.EmitBlock(evs)
+		mu.Lock()
+		runs++
+		mu.Unlock()
+	}
 	for w := 0; w < workers; w++ {
 		wg.Add(1)
 		go func() {
 			defer wg.Done()
 			for j := range ch {
 				evs, _ := vfhExec(j)
-				tr.EmitBlock(evs)
-				mu.Lock()
-				runs++
-				mu.Unlock()
+				emit(evs)
 			}
 		}()
 	}
@@ -1056,26 +1078,29 @@ func TestVerifHandshakeReplay(t *testing.T) {
 				fts = []string{"rsa"}
 			}
 		}
-		first := true
+		// step events are recorded for the first concretisation the model describes (all of
+		// them with stepsall)
+		stepsLeft := sc.Cfg.Steps
+		inModel := func(li int, ft string) bool { return (!low || vfhLowPoints[li].zero) && ft != "edsmall" }
+		combo := 0
 		for _, li := range lows {
 			if li < 0 || li >= len(vfhLowPoints) {
 				vfInfra("bad low index %d", li)
 			}
 			for _, ft := range fts {
+				want := inModel(li, ft) && (stepsLeft || sc.Cfg.StepsAll)
+				if want {
+					stepsLeft = false
+				}
+				combo++
 				if !junk {
-					ch <- vfhJob{sc: sc, lowIdx: li, ft: ft, mutIdx: -1, steps: sc.Cfg.Steps && first}
-					first = false
+					ch <- vfhJob{sc: sc, lowIdx: li, ft: ft, mutIdx: -1, steps: want}
 					continue
 				}
 				// learn the number of corruptions of the frame from a first run
-				evs, n := vfhExec(vfhJob{sc: sc, lowIdx: li, ft: ft, mutIdx: 0, steps: sc.Cfg.Steps && first})
+				evs0, n := vfhExec(vfhJob{sc: sc, lowIdx: li, ft: ft, mutIdx: 0, steps: want})
 				if n == 0 {
-					// the corrupted delivery was never reached with a frame (nothing to corrupt)
-					tr.EmitBlock(evs)
-					mu.Lock()
-					runs++
-					mu.Unlock()
-					first = false
+					emit(evs0) // the corrupted delivery was never reached with a frame
 					continue
 				}
 				var idx []int
@@ -1087,7 +1112,7 @@ func TestVerifHandshakeReplay(t *testing.T) {
 						vfInfra("bad mutation selector %q (n=%d)", mode, n)
 					}
 					idx = []int{k}
-				case mode == "all" && first:
+				case mode == "all" && combo == 1:
 					for k := 0; k < n; k++ {
 						idx = append(idx, k)
 					}
@@ -1101,17 +1126,18 @@ func TestVerifHandshakeReplay(t *testing.T) {
 						idx = append(idx, rr.Intn(n))
 					}
 				}
-				for _, k := range idx {
-					if k == 0 {
-						tr.EmitBlock(evs)
-						mu.Lock()
-						runs++
-						mu.Unlock()
+				seenIdx := map[int]bool{}
+				for q, k := range idx {
+					if seenIdx[k] {
 						continue
 					}
-					ch <- vfhJob{sc: sc, lowIdx: li, ft: ft, mutIdx: k, steps: sc.Cfg.Steps && first && len(idx) == 1}
+					seenIdx[k] = true
+					if k == 0 {
+						emit(evs0)
+						continue
+					}
+					ch <- vfhJob{sc: sc, lowIdx: li, ft: ft, mutIdx: k, steps: want && (sc.Cfg.StepsAll || q == 0)}
 				}
-				first = false
 			}
 		}
 	}
